@@ -15,6 +15,7 @@ maximization recursions are *arbitrary functions* of arguments that are proved u
 import TsdateVerif.Proofs.ScaleDiscrete
 import TsdateVerif.Proofs.ScaleConstrain
 import TsdateVerif.Proofs.ScaleEP
+import TsdateVerif.Proofs.ScaleKernels
 
 namespace Tsdate.C06
 open Tsdate Tsdate.Scale
@@ -239,26 +240,122 @@ theorem C06_means_to_node_times [Inhabited α] (c : α) (hc : 0 < c) (fixed : Ar
     simp [aget, smul, hi']
   · simpa using hr
 
+/-! ### finding F13: the interval estimate of `mutational_timescale` is discontinuous at ties of node times
+
+In exact arithmetic ties are preserved by a change of unit (`mutational_timescale_equivariant` above: the epoch
+index of every node is unchanged).  In floating point the posterior means of two symmetric nodes may differ by an
+ulp in one run and coincide in an equivalent run; `mutational_timescale` then sees one more (almost empty) epoch,
+and because `adjust[k+1] = z*y/n` sums the per-epoch *instantaneous* rates `counts`, `offset` without weighting
+them by the epoch durations, that epoch counts as much as any other: the rescaled dates jump by percents.
+Reproduced on the real code (corpus/C06/f13_near_tie.json, corpus/C07/f13_near_tie.json). -/
+
+/-- The estimator of `mutTimescale` on one interval: two epochs of duration 1 with count rates 1, 3 and target
+rates 1, 1 give `2·4/2 = 4`; if a node time splits the first epoch into pieces of duration `1 − ε` and `ε` (both
+carrying the same rates), the estimate is `2·5/3 = 10/3` for EVERY `ε`, however small: the estimate does not
+converge to the tied value as `ε → 0`. -/
+theorem F13_timescale_estimate_discontinuous :
+    sumRange [(1 : Rat), 1] 0 2 * sumRange [(1 : Rat), 3] 0 2 / sumRange [(1 : Rat), 1] 0 2 = 4 ∧
+    ∀ ε : Rat, sumRange [1 - ε, ε, 1] 0 3 * sumRange [(1 : Rat), 1, 3] 0 3 / sumRange [(1 : Rat), 1, 1] 0 3
+      = 10 / 3 := by
+  refine ⟨by norm_num [sumRange, sumL], fun ε => ?_⟩
+  simp only [sumRange, sumL, List.drop_zero, List.take, List.foldl_cons, List.foldl_nil]
+  ring_nf
+
+/-! ### tie of the hand-written damping functions to the translated source -/
+
+/-- the translator-generated `_damp` (Gen/Kernels.lean, regenerated from variational.py on every run) is
+the model's `damp`, hence scale-free: an absolute threshold introduced in the source breaks this proof -/
+theorem generated_damp_invariant (F : Tsdate.Kernels.SpecFns α) (k : α) (hk : 0 < k) (x y : α × α) (s : α) :
+    Tsdate.Gen.Kernels._damp F (rmul k x) (rmul k y) s = Tsdate.Gen.Kernels._damp F x y s :=
+  gen_damp_invariant F k hk x y s
+
+/-- the same for the translator-generated `_rescale` -/
+theorem generated_rescale_invariant (F : Tsdate.Kernels.SpecFns α) (k : α) (hk : 0 < k) (x : α × α) (s : α) :
+    Tsdate.Gen.Kernels._rescale F (rmul k x) s = Tsdate.Gen.Kernels._rescale F x s :=
+  gen_rescale_invariant F k hk x s
+
 /-! ### the whole statement -/
 
-/-- Input of a run as far as units of time are concerned, and its output. -/
-structure Run (α : Type) where
-  nodesTime : List α
-  mutationsTime : List α
-  mean : List α
-  var : List α
-
 /-- `r'` is `r` in a unit of time `c` times smaller -/
-def Run.ScaledBy (c : α) (r r' : Run α) : Prop :=
-  r'.nodesTime = smul c r.nodesTime ∧ r'.mutationsTime = smul c r.mutationsTime ∧
-  r'.mean = smul c r.mean ∧ r'.var = smul (c * c) r.var
+def RunOut.ScaledBy (c : α) (r r' : RunOut α) : Prop :=
+  r'.nodesTime = smul c r.nodesTime ∧ r'.mean = smul c r.mean ∧ r'.var = smul (c * c) r.var
 
-/-- **The full statement of C06** for a dating function `date` of (unit-carrying input, everything else)
-and a transformation `scaleIn c` of the unit-carrying inputs as in the property text.  It is proved
-below for the parts of the pipeline modelled in Lean; for the real `tsdate.date` it is checked by the
-metamorphic oracle of stage C. -/
-def C06_statement {I : Type} (scaleIn : α → I → I) (date : I → Run α) : Prop :=
-  ∀ c : α, 0 < c → ∀ inp : I, Run.ScaledBy c (date inp) (date (scaleIn c inp))
+/-- **The full statement of C06** for a dating function `date` of the unit-carrying inputs and the
+transformation `scaleIn c` of the property text (mutation rate ÷ c; min_branch_length, population sizes,
+epoch breaks, eps, user timepoints, sample ages × c).  Proved below for the Lean model of a whole
+`inside_outside` run (`C06_inside_outside_run`); for the variational method the proved chain is
+`C06_vgamma_partial` + `rescale_loop_equivariant` + `C06_means_to_node_times`; for the real `tsdate.date`
+the statement is checked by the metamorphic oracle of stage C. -/
+def C06_statement {I : Type} (scaleIn : α → I → I) (date : I → RunOut α) : Prop :=
+  ∀ c : α, 0 < c → ∀ inp : I, RunOut.ScaledBy c (date inp) (date (scaleIn c inp))
+
+/-- the transformation of the statement on the inputs of `inside_outside` -/
+def scaleRunIn (c : α) (inp : RunIn α) : RunIn α :=
+  { disc := inp.disc.scaleTime c, minBranch := c * inp.minBranch }
+
+theorem scatter_rel [Inhabited α] (c : α) (idx : List Nat) (vals : List α) (a a' : Array α) (h : ARel c a a') :
+    ARel c (scatter a idx vals) (scatter a' idx (smul c vals)) := by
+  unfold scatter
+  induction idx generalizing vals a a' with
+  | nil => exact h
+  | cons i is ih =>
+    cases vals with
+    | nil => exact h
+    | cons v vs =>
+      simp only [smul_cons, List.zip_cons_cons, List.foldl_cons]
+      exact ih vs _ _ (h.aset i v)
+
+theorem scatter_size [Inhabited α] (idx : List Nat) (vals : List α) (a : Array α) :
+    (scatter a idx vals).size = a.size := by
+  unfold scatter
+  induction idx generalizing vals a with
+  | nil => rfl
+  | cons i is ih =>
+    cases vals with
+    | nil => rfl
+    | cons v vs =>
+      simp only [List.zip_cons_cons, List.foldl_cons]
+      rw [ih, size_aset]
+
+theorem toList_of_rel [Inhabited α] (c : α) (a a' : Array α) (h : ARel c a a') :
+    a'.toList = smul c a.toList := by
+  apply List.ext_getElem
+  · simp [h.1]
+  · intro i h1 h2
+    have hi : i < a.size := by simpa using h2
+    have := h.2 i hi
+    simp only [aget] at this
+    simp only [smul, List.getElem_map, Array.getElem_toList]
+    have e1 : a'[i]? = some a'[i] := by simp [h.1, hi]
+    have e2 : a[i]? = some a[i] := by simp [hi]
+    simpa [e1, e2] using this
+
+/-- **C06 holds for a whole `inside_outside` run of the model** (any Poisson pmf, any prior cdfs, any
+inside/outside recursion that reads the unit-free view, any edge table in range, any iteration count):
+node times and posterior means × c, posterior variances × c². -/
+theorem C06_inside_outside_run [Inhabited α] {β : Type} (two : α) (pmf : Nat → α → β) (cdfs : List (α → α))
+    (core : DiscreteFree α β → List (List α)) (nNodes : Nat) (nonfixed : List Nat) (fixed : Array Bool)
+    (es : List Edge) (iters : Nat) (hr : InRange nNodes es) :
+    C06_statement scaleRunIn (insideOutsideRun two pmf cdfs core nNodes nonfixed fixed es iters) := by
+  intro c hc inp
+  have hmv := C06_discrete two c hc pmf cdfs core inp.disc
+  have h1 : (insideOutsideOut core (discreteView two pmf cdfs (inp.disc.scaleTime c))).map (fun x => x.1)
+      = smul c ((insideOutsideOut core (discreteView two pmf cdfs inp.disc)).map (fun x => x.1)) := by
+    rw [hmv]; simp [smul, List.map_map, Function.comp]
+  have h2 : (insideOutsideOut core (discreteView two pmf cdfs (inp.disc.scaleTime c))).map (fun x => x.2)
+      = smul (c * c) ((insideOutsideOut core (discreteView two pmf cdfs inp.disc)).map (fun x => x.2)) := by
+    rw [hmv]; simp [smul, List.map_map, Function.comp]
+  refine ⟨?_, h1, h2⟩
+  simp only [insideOutsideRun, scaleRunIn, h1]
+  apply toList_of_rel c
+  have hbase : ARel c (Array.replicate nNodes (0 : α)) (Array.replicate nNodes (0 : α)) := by
+    refine ⟨rfl, fun i hi => ?_⟩
+    have hi' : i < nNodes := by simpa using hi
+    simp [aget, hi']
+  apply constrainAges_rel c hc (· + inp.minBranch) (· + inp.minBranch) (· + c * inp.minBranch)
+    (· + c * inp.minBranch) (fun x => by ring) (fun x => by ring)
+  · exact scatter_rel c nonfixed _ _ _ hbase
+  · rw [scatter_size]; simpa using hr
 
 /-! ### non-vacuity -/
 
